@@ -500,8 +500,14 @@ impl<S: WebSocket, T: TimestampProvider> Task<S, T> {
                     FlowSlot::Requested(_) => {
                         // `Finish` is an invalid response to `Connect`
                         warn!("Peer replied `Finish` to a `Connect` request");
-                        flows.remove(&flow_id);
+                        let removed = flows.remove(&flow_id);
                         drop(flows);
+                        if let Some(removed) = removed {
+                            // Tell the requester that this flow ID did not work out (it will
+                            // try another one) instead of dropping it, which it would take
+                            // for the end of the connection.
+                            self.close_flow_local(removed, flow_id, true);
+                        }
                         send_rst();
                     }
                     FlowSlot::Established(stream_data) => {
